@@ -297,6 +297,9 @@ func newWorld(c *lib.Ctx, root string) (w *world, err error) {
 
 // start creates the DNSFilter like home does: New, then EnableFilters(false).
 func (w *world) start(names map[int]string) (err error) {
+	if names == nil {
+		names = map[int]string{idBlock: "block list", idAllow: "allow list", idLocal: "local list"}
+	}
 	conf := &filtering.Config{
 		DataDir:    w.dataDir,
 		HTTPClient: &http.Client{Transport: w.tr},
@@ -322,8 +325,6 @@ func (w *world) start(names map[int]string) (err error) {
 }
 
 func (w *world) close() {
-	t0 := time.Now()
-	defer func() { w.c.Count("t_close_us", int64(time.Since(t0)/time.Microsecond)) }()
 	if w.d != nil {
 		w.d.Close()
 		w.d = nil
@@ -346,7 +347,13 @@ type metaObs struct {
 	Enabled  bool   `json:"enabled"`
 	Count    int    `json:"count"`
 	Sum      uint32 `json:"sum"`
-	AgeSec   int64  `json:"age_s"` // now - LastUpdated; -1 = never
+	// Age is now - LastUpdated as a class: "never", "young" (less than the
+	// refresh interval) or "due".  The class decides every later scheduling
+	// decision: steps advance the clock by 1 h or by more than the interval,
+	// and maxDepth x 1 h is less than the interval (checked in runSequences),
+	// so within the explored depth a young list only becomes due through a
+	// long step, which makes every list due.
+	Age string `json:"age"`
 	lastUpd  time.Time
 	neverUpd bool
 }
@@ -361,8 +368,6 @@ type obs struct {
 }
 
 func (w *world) observe() (o obs, err error) {
-	t0 := time.Now()
-	defer func() { w.c.Count("t_observe_us", int64(time.Since(t0)/time.Microsecond)); w.c.Count("n_observe", 1) }()
 	o.Files = map[int]fileObs{}
 	for _, id := range []int{idBlock, idAllow, idLocal} {
 		data, rerr := os.ReadFile(w.listPath(id))
@@ -407,9 +412,12 @@ func (w *world) observe() (o obs, err error) {
 	}
 	now := vtime.Now()
 	for _, l := range w.d.VerifC15Lists() {
-		m := metaObs{ID: l.ID, White: l.White, Name: l.Name, Enabled: l.Enabled, Count: l.RulesCount, Sum: l.Checksum, AgeSec: -1, lastUpd: l.LastUpdated, neverUpd: l.LastUpdated.IsZero()}
+		m := metaObs{ID: l.ID, White: l.White, Name: l.Name, Enabled: l.Enabled, Count: l.RulesCount, Sum: l.Checksum, Age: "never", lastUpd: l.LastUpdated, neverUpd: l.LastUpdated.IsZero()}
 		if !m.neverUpd {
-			m.AgeSec = int64(now.Sub(l.LastUpdated) / time.Second)
+			m.Age = "young"
+			if now.Sub(l.LastUpdated) >= interval {
+				m.Age = "due"
+			}
 		}
 		o.Meta = append(o.Meta, m)
 	}
@@ -771,10 +779,7 @@ func (e *seqEnv) exec(hist []Op) (st lib.Step) {
 
 func (e *seqEnv) execRoot(root string, hist []Op) (st lib.Step) {
 	vtime.SetVirtual(base)
-	t0 := time.Now()
 	w, err := newWorld(e.c, root)
-	e.c.Count("t_newworld_us", int64(time.Since(t0)/time.Microsecond))
-	defer func() { e.c.Count("t_exec_us", int64(time.Since(t0)/time.Microsecond)); e.c.Count("n_exec", 1) }()
 	if err != nil {
 		e.c.EngineError("world: " + err.Error())
 		return lib.Step{}
@@ -782,9 +787,7 @@ func (e *seqEnv) execRoot(root string, hist []Op) (st lib.Step) {
 	defer w.close()
 	for i, op := range hist {
 		e.c.Count("steps_executed", 1)
-		t1 := time.Now()
 		outcome, nt, vkey, vdesc := w.step(op, hist[:i+1])
-		e.c.Count("t_step_us", int64(time.Since(t1)/time.Microsecond))
 		if strings.HasPrefix(vkey, "harness-") {
 			e.c.EngineError(vkey + ": " + vdesc + " on " + histString(hist[:i+1]))
 			return lib.Step{}
@@ -811,6 +814,13 @@ func runSequences(c *lib.Ctx) {
 	depth := 3
 	if !c.Quick() {
 		depth = 4
+	}
+	if time.Duration(depth)*time.Hour >= interval {
+		c.EngineError("the age classes of the state key need depth x 1 h < interval")
+		return
+	}
+	if v := os.Getenv("VERIF_C15_DEPTH"); v != "" { // development only
+		fmt.Sscan(v, &depth)
 	}
 	e := &seqEnv{c: c}
 	for _, root := range []string{"", "fresh"} {
